@@ -174,6 +174,14 @@ func NewGen(s *Sim, ch Chooser, prof Profile) *Gen {
 	if !g.membership {
 		g.w[actConf] = 0
 	}
+	if g.crashPct > 0 {
+		s.SnapCrash = func() CrashPoint {
+			if !chance(ch, 4*g.crashPct, "snapcrash") {
+				return NoCrash
+			}
+			return CrashPoint(pick(ch, "snapcrashpoint", int(CrashAfterPublish), int(CrashSnapSaved), int(CrashSnapSaved), int(CrashWalSaved), int(CrashSnapApplied), int(CrashSnapApplied), int(CrashAppended)))
+		}
+	}
 	return g
 }
 
